@@ -79,8 +79,12 @@ class Edit:
     The anchor must occur exactly once (or `occurrence` selects one of several); otherwise the
     check ends undecided (exit 2)."""
 
-    def __init__(self, file, anchor, mode, text, why="", alt_anchors=(), probe_group=None):
+    def __init__(self, file, anchor, mode, text, why="", alt_anchors=(), probe_group=None, scope_fn=None, count=None):
+        # mode 'regex': `anchor` is a pattern, `text` the replacement (may use \g<0>); every match inside
+        # the body of function `scope_fn` (whole file if None) is rewritten; `count` = required number of
+        # matches (None: at least one)
         self.file, self.anchor, self.mode, self.text, self.why = file, anchor, mode, text, why
+        self.scope_fn, self.count = scope_fn, count
         self.alt_anchors = tuple(alt_anchors)
         # edits of one probe group are woven all-or-nothing; if an anchor is lost the group is skipped,
         # its flag in the harness file is turned off and only the obligations guarded by it are undecided
@@ -99,10 +103,26 @@ class Workspace:
         if rc != 0:
             raise Undecided("setup", "rsync of /repo failed", out)
 
+    def _regex_scope(self, e, s):
+        if not e.scope_fn:
+            return 0, len(s)
+        import extract as ex
+        try:
+            st, _ob, en = ex.item(s, r"^\s*(?:pub(?:\([a-z]+\))? )?fn %s\s*[(<]" % re.escape(e.scope_fn), "fn " + e.scope_fn)
+        except ex.ExtractError:
+            return None
+        return st, en
+
     def anchor_ok(self, e):
         if e.mode == "append":
             return True
         s = self.read(e.file)
+        if e.mode == "regex":
+            rng = self._regex_scope(e, s)
+            if rng is None:
+                return False
+            n = len(re.findall(e.anchor, s[rng[0]:rng[1]]))
+            return n == e.count if e.count is not None else n >= 1
         return any(s.count(a) == 1 for a in (e.anchor,) + e.alt_anchors)
 
     def path(self, rel):
@@ -125,6 +145,15 @@ class Workspace:
         if e.mode == "append":
             self.write(e.file, s + e.text)
             self.weave_log.append({"file": e.file, "action": "append", "text": e.text.strip(), "why": e.why})
+            return
+        if e.mode == "regex":
+            rng = self._regex_scope(e, s)
+            if rng is None or not self.anchor_ok(e):
+                raise Undecided("weave", f"pattern anchor lost in {e.file}", e.anchor)
+            seg, n = re.subn(e.anchor, e.text, s[rng[0]:rng[1]])
+            self.write(e.file, s[:rng[0]] + seg + s[rng[1]:])
+            self.weave_log.append({"file": e.file, "action": "rewrite every match of a pattern" + (f" inside fn {e.scope_fn}" if e.scope_fn else ""),
+                                   "pattern": e.anchor, "matches": n, "text": e.text, "why": e.why})
             return
         anchor = None
         for a in (e.anchor,) + e.alt_anchors:
